@@ -72,7 +72,7 @@ def symbolic(fn):
 def _orig():
     import pySDC.core.sweeper as mod
 
-    return (dict(mod.QDELTA_GENERATORS), dict(mod.QDELTA_GENERATORS_ALIASES))
+    return (dict(mod.QDELTA_GENERATORS), dict(getattr(mod, 'QDELTA_GENERATORS_ALIASES', {})))
 
 
 _ORIG = _orig()
@@ -118,11 +118,13 @@ def install_ghost_generators(mk, M, kdep, triangular=False):
             return kdep.get(type(self).__name__, False)
 
     GA = type('GA', (_Gen,), {})
-    GA2 = type('GA2', (_Gen,), {})
+    GA2 = type('GA2', (GA,), {})  # a generator type derived from another one (as LU2 from LU in qmat): still a DIFFERENT coefficient table
     GB = type('GB', (_Gen,), {})
     # the real tables stay available (other contracts in the same worker process build real sweepers)
     mod.QDELTA_GENERATORS = {**_ORIG[0], 'GA': GA, 'GA-alias': GA, 'GA2': GA2, 'GB': GB}
-    mod.QDELTA_GENERATORS_ALIASES = {**_ORIG[1], GA: ['GA', 'GA-alias'], GA2: ['GA2'], GB: ['GB']}
+    if hasattr(mod, 'QDELTA_GENERATORS_ALIASES'):  # present in the current source; the contracts do not depend on it
+        mod.QDELTA_GENERATORS_ALIASES = {**_ORIG[1], GA: ['GA', 'GA-alias'], GA2: ['GA2'], GB: ['GB']}
+    mod._ghost_types = dict(GA=GA, GA2=GA2, GB=GB)
     mod.np = _NpShim()
     mod._ghost_tables = tables
     return mod, log, GA, GB
@@ -138,7 +140,7 @@ class _QdBase(Contract):
 
     def instances(self, tier):
         Ms = (1, 2, 3) if tier == 'quick' else (1, 2, 3, 4)
-        return [dict(M=M, cached=c, k=k) for M in Ms for c in ('none', 'same', 'alias', 'other') for k in (None, 'k')]
+        return [dict(M=M, cached=c, k=k) for M in Ms for c in ('none', 'same', 'alias', 'other', 'child') for k in (None, 'k')]
 
     def build(self, inst, mk):
         M = inst['M']
@@ -151,13 +153,16 @@ class _QdBase(Contract):
             if hasattr(sw, a):
                 delattr(sw, a)
         other_attr = 'genQI' if self.explicit else 'genQE'
-        other = GB(qGen='other-generator', tLeft=0)
+        # the generator cached for the OTHER matrix must play no role (it is of the requested type exactly when the own cached one is not)
+        other = (GA if inst['cached'] == 'other' else GB)(qGen='other-generator', tLeft=0)
         setattr(sw, other_attr, other)  # the generator of the OTHER matrix must play no role
         cached = None
         if inst['cached'] in ('same', 'alias'):
             cached = GA(qGen=sw.coll.generator, tLeft=sw.coll.tleft)
         elif inst['cached'] == 'other':
             cached = GB(qGen=sw.coll.generator, tLeft=sw.coll.tleft)
+        elif inst['cached'] == 'child':
+            cached = mod._ghost_types['GA2'](qGen=sw.coll.generator, tLeft=sw.coll.tleft)  # derived type cached, BASE type requested
         if cached is not None:
             setattr(sw, attr, cached)
         del log[:]
@@ -174,13 +179,9 @@ class _QdBase(Contract):
         gen = getattr(sw, st.attr, None)
         builds = [e for e in log if e[0] == 'build']
         calls = [e for e in log if e[0] == 'coeffs']
-        # ---- which generator answers
+        # ---- which generator answers (caching itself is not specified: only WHOSE coefficients come back)
         yield 'generator_of_requested_type', gen is not None and type(gen) is st.GA
-        if inst['cached'] in ('same', 'alias'):
-            yield 'cached_generator_answering_to_the_name_is_reused', gen is st.cached and not builds
-        else:
-            yield 'new_generator_built_once', len(builds) == 1 and gen is builds[0][2]
-            yield 'new_generator_bound_to_this_collocation', gen is not None and gen.qGen is sw.coll.generator and gen.tLeft is sw.coll.tleft and not gen.extra
+        yield 'answering_generator_bound_to_this_collocation', gen is not None and gen.qGen is sw.coll.generator and gen.tLeft is sw.coll.tleft and not gen.extra
         yield 'generator_of_the_other_matrix_untouched', getattr(sw, st.other_attr, None) is st.other and not any(e[2] is st.other for e in log)
         yield 'coefficients_requested_once_with_the_sweep_index', len(calls) == 1 and calls[0][2] is gen and (calls[0][3] is st.k or (st.k is not None and sym.is_sym(calls[0][3]) and bool(sym.eq(calls[0][3], st.k)) is True)) and bool(calls[0][4]) == self.explicit
         if len(calls) != 1 or calls[0][2] is not gen:
